@@ -62,6 +62,19 @@ class Prop:
                     shape = [rng.choice([1, 2, 3, 4]) for _ in range(N)]
                     tj = rand_tensor_json(rng, shape, list(kinds), maxr=4, maxs=4)
                     self._add_op(add, rng, tj, op)
+        # all-zero tensors through every re-expression (rank-1 special case of the truncated SVD)
+        for op in OPS:
+            for N in (1, 2, 3):
+                shape = [rng.choice([2, 3]) for _ in range(N)]
+                tj = rand_tensor_json(rng, shape, maxr=2, zero=True)
+                if rng.random() < 0.5:       # zero only through one core
+                    tj2 = rand_tensor_json(rng, shape, [(m["kind"], m["U"] is not None) for m in tj["modes"]], maxr=2)
+                    k0 = rng.randrange(N)
+                    for n in range(N):
+                        if n != k0 and np.array(tj2["modes"][n]["core"]).shape == np.array(tj["modes"][n]["core"]).shape:
+                            tj["modes"][n]["core"] = tj2["modes"][n]["core"]
+                self._add_op(add, rng, tj, op)
+                cases[-1]["tags"]["data"] = "zero"
         for N in (3, 4):
             for _ in range(150 if quick else 1500):
                 shape = [rng.choice([1, 2, 3]) for _ in range(N)]
@@ -150,8 +163,8 @@ class Prop:
             return False, "dtype %s for float64 data" % res["dtype"]
         a = np.array(res["dense"]); b = np.array(exp["dense"])
         tol = 0.0 if (case["op"] in EXACT or case["op"] == "roundtrip") else 1e-10
-        if a.size and np.max(np.abs(a - b)) > tol * max(1.0, np.max(np.abs(b))):
-            return False, "values differ by %g" % np.max(np.abs(a - b))
+        if not close(a, b, tol):
+            return False, "values differ (max abs difference %s)" % (np.max(np.abs(a - b)) if a.size else 0)
         if case["op"] == "tt" and not res["pure_tt"]:
             return False, "tt() result is not in pure TT format"
         if case["op"] == "decompress_all" and not res["no_U"]:
